@@ -1027,5 +1027,5 @@ func drawMin(t *rapid.T) minCase {
 }
 
 func TestMinimize(t *testing.T) {
-	vk.Run(t, "minimize", vk.Opts{Quick: 6000, Thorough: 150000}, drawMin, checkMin)
+	vk.Run(t, "minimize", vk.Opts{Quick: 8000, Thorough: 150000}, drawMin, checkMin)
 }
